@@ -1,6 +1,6 @@
 (* C08 - top-level statements (generic ring) and their instance on the executable model. *)
 From Coq Require Import String ZArith List Bool Lia Ring QArith Qcanon.
-From HD Require Import C08_Model C08_Proofs C08_Proofs_Step C08_Proofs_More C08_Proofs_Qc.
+From HD Require Import C08_Model C08_Proofs C08_Proofs_Step C08_Proofs_More C08_Proofs_Qc C08_Proofs_Ext C08_Proofs_Orient.
 Import ListNotations.
 Open Scope Z_scope.
 
@@ -19,6 +19,15 @@ Proof.
   split; [exact Qcrt|]. split; [exact qc_inj_add|]. split; [exact qc_inj_mul|].
   split; [exact qc_inj_opp|]. split; [exact qc_inj_1|exact qc_inj_regular].
 Qed.
+
+(* the sign laws of an ordered ring that the orientation theorem needs of the order test *)
+Definition SignLaws (R : Type) (rO : R) (ropp : R -> R) (ltb : R -> R -> bool) : Prop :=
+  (forall x, ltb (ropp x) rO = ltb rO x) /\ (forall x, ltb rO (ropp x) = ltb x rO) /\
+  (forall x, ltb x rO = true -> ltb rO x = false) /\
+  (forall x, ltb x rO = false -> ltb rO x = false -> x = rO).
+
+Lemma SignLaws_Qc : SignLaws Qc (Q2Qc 0) Qcopp qc_ltb.
+Proof. split; [exact qc_ltb_opp_0|]. split; [exact qc_ltb_0_opp|]. split; [exact qc_ltb_asym0|exact qc_ltb_tri0]. Qed.
 
 Definition no_with_array {Vx} (ops : list (op Vx)) : bool :=
   forallb (fun o => negb (match o with WithArray _ _ _ _ => true | _ => false end)) ops.
@@ -100,4 +109,73 @@ Proof.
   destruct ZR as (Rth & Ia & Im & Io & I1 & Ir). intros L.
   exact (handedness_reached R rO rI radd rmul rsub ropp inj ltb Vx padval Rth Ia Im Io I1 Ir L).
 Qed.
+
+Hypothesis SL : SignLaws R rO ropp ltb.
+
+Lemma top_orientation_reached : forall v o v' f s0 s1 s2,
+  wf (v_shape R Vx v) -> Dom R rO ropp ltb (v_aff R Vx v) s0 s1 s2 ->
+  vstep_sp v (OOrient o) = Ok (v', f) -> closest R rO ropp ltb (v_aff R Vx v') = o.
+Proof.
+  destruct ZR as (Rth & Ia & Im & Io & I1 & Ir). destruct SL as (L1 & L2 & L3 & L4).
+  exact (orientation_reached R rO rI radd rmul rsub ropp Rth inj Ia Im Io I1 ltb L1 L2 L3 L4 Vx padval).
+Qed.
+
+Lemma top_orientation_accepted : forall v o d s0 s1 s2,
+  wf (v_shape R Vx v) -> Dom R rO ropp ltb (v_aff R Vx v) s0 s1 s2 -> v_patient R Vx v = true ->
+  normalize_orientation o = Ok d ->
+  exists v' f, vstep_sp v (OOrient o) = Ok (v', f) /\ closest R rO ropp ltb (v_aff R Vx v') = o.
+Proof.
+  destruct ZR as (Rth & Ia & Im & Io & I1 & Ir). destruct SL as (L1 & L2 & L3 & L4).
+  exact (orientation_run R rO rI radd rmul rsub ropp Rth inj Ia Im Io I1 ltb L1 L2 L3 L4 Vx padval).
+Qed.
 End Top.
+
+(* ---- non-vacuity of the orientation theorem: a rotated (3-4-5), left-handed affine with
+   spacing 2 on the third axis is dominant with signature H, A, R; every one of the three
+   results below is computed by the executable model *)
+Definition ex_aff : aff Qc :=
+  Aff (V (q 0 1) (q 3 5) (q 4 5)) (V (q 0 1) (q (-4) 5) (q 3 5)) (V (q (-2) 1) (q 0 1) (q 0 1))
+      (V (q 1 2) (q 0 1) (q (-7) 1)).
+Definition ex_vol2 : qvol :=
+  mkvol ex_aff (2, 3, 2) [] (map inject_Z [1;2;3;4;5;6;7;8;9;10;11;12]) true true (Some 5).
+
+Lemma qc_nz : forall n d, n <> 0 -> q n d <> Q2Qc 0.
+Proof.
+  intros n d Hn E. apply (f_equal this) in E. unfold q in E. cbn [this Q2Qc] in E.
+  assert (Qred (n # d) == Qred 0)%Q as E' by (rewrite E; reflexivity).
+  rewrite !Qred_correct in E'. unfold Qeq in E'. cbn in E'. lia.
+Qed.
+
+Lemma ex_dom : Dom Qc (Q2Qc 0) Qcopp qc_ltb ex_aff (2, true) (1, false) (0, false).
+Proof.
+  unfold Dom, dom. cbn [fst snd ex_aff c0 c1 c2].
+  repeat split; try lia; try (vm_compute; reflexivity); try (apply qc_nz; lia).
+  all: match goal with i : Z |- _ => assert (Hc : i = 0 \/ i = 1 \/ i = 2) by lia;
+         destruct Hc as [-> | [-> | ->]]; try lia; vm_compute; reflexivity end.
+Qed.
+
+Lemma ex_orientation :
+  wf (v_shape _ _ ex_vol2) /\
+  closest Qc (Q2Qc 0) Qcopp qc_ltb (v_aff _ _ ex_vol2) = [4; 3; 1] /\
+  match q_step_tr ex_vol2 (Sp (OOrient [5; 2; 0])) with
+  | Ok (v', f) => closest Qc (Q2Qc 0) Qcopp qc_ltb (v_aff _ _ v') = [5; 2; 0] /\
+                  v_shape _ _ v' = (2, 3, 2) /\ f (0, 0, 0) = Some (1, 2, 1)
+  | Err _ => False
+  end.
+Proof. split; [cbn; lia|]. split; vm_compute; repeat split; reflexivity. Qed.
+
+(* a history of re-arrangements only (flip, orientation, handedness, random flip with the drawn
+   bits 1,0, channel-free copy) and a crop: bijective resp. total index maps *)
+Definition ex_ops_rearr : list qop :=
+  [Sp (OFlip (FList [0; 2])); Sp (OOrient [1; 4; 3]); Sp (OHanded HRight None (Some [0; 1]));
+   Sp (ORand (RFlip [0; 2] [1; 0])); Copy; Sp (ORand (RPermute [0; 2] [2; 0]))].
+Lemma ex_rearr :
+  forallb (op_rearr Q) ex_ops_rearr = true /\ forallb (op_nopad Q) (Sp (OCropTo [1; 2; 2]) :: ex_ops_rearr) = true /\
+  let r := run_tr Qc (Q2Qc 0) Qcplus Qcmult Qcminus Qcopp qc_inj qc_ltb Q q_padval ex_vol2 ex_ops_rearr in
+  v_shape _ _ (fst r) = (3, 2, 2) /\ snd r (0, 0, 0) = Some (1, 0, 0) /\ snd r (2, 1, 1) = Some (0, 2, 1).
+Proof. vm_compute. repeat split; reflexivity. Qed.
+
+Lemma ex_geometry_history :
+  Forall (op_modes_ok Q) ex_ops_rearr /\
+  g_shape _ (grun Qc (Q2Qc 0) Qcplus Qcmult Qcminus Qcopp qc_inj qc_ltb Q (geom_of _ _ ex_vol2) ex_ops_rearr) = (3, 2, 2).
+Proof. split; [repeat constructor|vm_compute; reflexivity]. Qed.
